@@ -54,6 +54,7 @@ type TVOp struct {
 	// strings derived from Op / Key; Op and Key are then what the address codec / the interface
 	// registry - called directly, not through the keeper - make of them: 0 = undecodable)
 	OpStr, KeyStr string
+	Moniker       string // register: the plan validator's moniker ("" = "m"); not an observable, not in the model
 	Sender        string // probe: the account that tries to act as bridge executor
 	ProbeWant     bool   // set by Do: Sender's address BYTES are among the decoded BridgeExecutors (codec called directly)
 	BadExec       bool   // set by Do: some executor string does not decode (address codec, called directly)
@@ -108,6 +109,13 @@ func (o TVOp) String() string {
 		}
 		if o.KeyStr != "" {
 			x += fmt.Sprintf(",key=%q", o.KeyStr)
+		}
+		if o.Moniker != "" {
+			m := o.Moniker
+			if len(m) > 12 {
+				m = m[:12] + "..."
+			}
+			x += fmt.Sprintf(",moniker=%d bytes %q", len(o.Moniker), m)
 		}
 		return x + ")"
 	case "engine":
@@ -558,7 +566,14 @@ func (r *ValRun) Do(o TVOp) ValSnap {
 					err = fmt.Errorf("panic: %v", x)
 				}
 			}()
-			return e.K.RegisterExecutorChangePlan(o.Pid, o.PH, opStr, "m", keyStr, "info", o.Execs)
+			moniker := o.Moniker
+			if moniker == "" {
+				moniker = "m"
+			}
+			if moniker == "<empty>" {
+				moniker = ""
+			}
+			return e.K.RegisterExecutorChangePlan(o.Pid, o.PH, opStr, moniker, keyStr, "info", o.Execs)
 		}()
 		res = ExecResult{OK: err == nil}
 		if err != nil {
